@@ -35,3 +35,28 @@ Fixpoint run_ops (g : gens) (ops : list op) : list (list Z) :=
   | o :: r => let '(g', out) := op_step g o in out :: run_ops g' r
   end.
 Definition handed_out (r : res lcas) (ops : list op) : res (list (list Z)) := do c <- r ;; Ok (run_ops (gens_of c) ops).
+
+(* (3) third wave: ONE TypeSystem object serves several loads, and between two loads TypeSystem.create_type
+   (typesystem.py:935-963: `self._types[name] = new_type`, after refusing a name that is already there) adds types.
+   The reader only READS the type system - typesystem.get_type(type_name, True), xmi.py:384; typesystem.py:966-995 is a
+   lookup in `_types` and writes nothing - so the type system a load sees is the list of types defined at that moment:
+   the state of the object is a schema and nothing else. *)
+Inductive sop :=
+| SLoad (src : source) (lenient trusted : bool) (d : xdoc)     (* load_cas_from_xmi(d, typesystem=the object, ...) *)
+| SCreate (ti : tinfo).                                        (* create_type (+ its features) on the object *)
+(* a name that is already defined is refused by create_type; appended here, it would stay invisible to sch_find *)
+Definition create_type (s : schema) (ti : tinfo) : schema := (s ++ [ti])%list.
+(* the outcomes of the loads of a session, in order *)
+Fixpoint session (parse_flt : string -> option flt) (s : schema) (ops : list sop) : list (res lcas) :=
+  match ops with
+  | [] => []
+  | SLoad src b t d :: r => load_entry parse_flt src s b t d :: session parse_flt s r
+  | SCreate ti :: r => session parse_flt (create_type s ti) r
+  end.
+(* what the object defines after the operations *)
+Fixpoint types_after (s : schema) (ops : list sop) : schema :=
+  match ops with
+  | [] => s
+  | SLoad _ _ _ _ :: r => types_after s r
+  | SCreate ti :: r => types_after (create_type s ti) r
+  end.
